@@ -112,6 +112,19 @@ CHECKS["C17"] = dict(
     text="One failing construct of 11 kinds in each of 15 statement positions is rendered under layouts {canonical, blank and comment lines of every form inserted, line breaks inside statements} x {LF, CRLF, CR}; the reported chunk:line: must be the statement's line (any line of the statement when it spans several), level 2 the calling statement; debug.getinfo currentline/linedefined/lastlinedefined and the named locals/upvalues enumerated (and set) at levels 1-3 in random nestings with shadowing must be what the TLA+ semantics defines for that layout.",
     design_ref="DESIGN.md section 4 C17", note=LSEM_NOTE + " Upvalues compared by name (order not fixed by the manual); internal/temporary slots filtered by name.", specs=["LuaSem", "LuaSemTrace"])
 
+CHECKS["C08"] = dict(
+    technique="TLA+ token-level recogniser of the Lua 5.1 grammar (Grammar) evaluated by TLC on enumerated token sequences; loader must accept what the grammar accepts; layout independence by validating every layout of every program against LuaSem; robustness sweep judged by the outcome relation",
+    category="model_checking",
+    text="TLC classifies every token sequence of length <=3 over 39 tokens (length 4 over 24 tokens in the thorough tier) and every one-token deletion/replacement/insertion of 22 valid templates with the position-set recogniser of the Lua 5.1 grammar incl. context conditions; the real loader must accept each accepted text and may only answer {function, syntax error} on all of them. Random programs are rendered under 9 layouts x line-end conventions with optional semicolons and neutral parentheses and each rendering must produce the trace LuaSem defines. Truncation at every byte offset, byte mutations, random bytes, token soup and nesting to depth 2*10^4 (2*10^5 thorough) are loaded twice in child processes with deadlines.",
+    design_ref="DESIGN.md section 4 C08", note=LSEM_NOTE + " Acceptance is one-directional; goto/labels are not classified by the recogniser; for arbitrary bytes the spec contributes only the outcome relation.", specs=["Grammar", "GrammarGen", "LuaSem", "LuaSemTrace"])
+CHECKS["C12"] = dict(
+    technique="implementation-shaped TLA+ specs of both call-frame stacks and the register file model-checked by TLC to refine list models; every transition replayed on the real structures through tagged wrappers and judged by TLC; option tuples normalised by a TLA+ spec; limit probes and within-limit programs run under the tuples on the real interpreter with TLC deciding thresholds, catchability and trace identity",
+    category="model_checking",
+    text="CallStackImpl (fixed and segmented, sizes 1..17) and RegistryImpl (grow/resize, scaled sizes) are model-checked against bounded-sequence/list specs; each transition of those graphs plus seeded random histories is replayed on the real code and validated by TLC. 10,296 raw option tuples x context are compared with TLC's normalisation and thread inheritance. Limit probes must overflow only above the configured size, always as an error pcall catches, after which a follow-up computation is right; programs within limits must produce identical traces under every configuration (reference traces cross-validated by LuaSem).",
+    design_ref="DESIGN.md section 4 C12",
+    note="Trusted: TLC, the wrappers in verif_access.go, the lua-run harness. VM protocol preconditions assumed (Pop on non-empty, SetSp(n<=Sp)). One slot of register-file slack per overflow error already raised is admitted.",
+    specs=["CallStack", "CallStackImpl", "CallStackTrace", "Registry", "RegistryImpl", "RegistryTrace", "LuaOptions", "LuaLimitsTrace"])
+
 NOT_YET = {}
 
 
